@@ -125,7 +125,12 @@ def eddm(ctx):
     num = m1 + const(2) * s1
     cmax = T.mk_cmp("<", A("_max_numerator"), num)
     mx = tr.stores("_max_numerator")
-    ctx.ob("FRM", site, "running maximum of mean + 2*std", len(mx) == 1 and T.same(mx[0].value, num) and q.has_guard(mx[0], cmax), "", mx[0] if mx else None)
+    # compare-and-assign, max(old, new) and a conditional expression share one normal form: decide on the value the attribute ends with
+    want_max = T.mk_ite(cmax, num, A("_max_numerator"))
+    fin_max = tr.final.attrs.get("_max_numerator") if tr.final is not None else None
+    leaves_max = [l for _c, l in q.ite_leaves(fin_max)] if fin_max is not None else []
+    okm = len(mx) == 1 and any(l == want_max or T.same(l, want_max) for l in leaves_max) and all(l == A("_max_numerator") or l == want_max or T.same(l, want_max) for l in leaves_max)
+    ctx.ob("FRM", site, "running maximum of mean + 2*std", okm, q.short(fin_max, 160) if fin_max is not None else "", mx[0] if mx else None)
     max1 = T.mk_ite(cmax, num, A("_max_numerator"))
     ts = tr.stores("_test_statistic")
     ctx.ob("FRM", site, "statistic = (mean + 2 std) / running maximum", len(ts) == 1 and T.same(ts[0].value, num / max1), q.short(ts[0].value, 160) if ts else "", ts[0] if ts else None)
